@@ -38,6 +38,10 @@ theorem stepA {rv s a s'} (h : InvA s) (st : Step rv s a s') : InvA s' := by
     refine ⟨by simpa [upd] using h1, ?_, ?_, ?_, ?_, ?_, ?_⟩ <;> intro j <;> simp only [upd, res] <;> by_cases hj : j = i <;> simp only [hj, if_true, if_false] <;> grind
   | wlWriteFail i hw hq =>
     refine ⟨by grind, ?_, ?_, ?_, ?_, ?_, ?_⟩ <;> intro j <;> simp only [upd, res] <;> by_cases hj : j = i <;> simp only [hj, if_true, if_false] <;> grind
+  | wlBodyFail i hw hq =>
+    refine ⟨by grind, ?_, ?_, ?_, ?_, ?_, ?_⟩ <;> intro j <;> simp only [upd, res] <;> by_cases hj : j = i <;> simp only [hj, if_true, if_false] <;> grind
+  | wlFail hw =>
+    refine ⟨by grind, ?_, ?_, ?_, ?_, ?_, ?_⟩ <;> intro j <;> grind
   | wlSeeDone hw hd =>
     refine ⟨by grind, ?_, ?_, ?_, ?_, ?_, ?_⟩ <;> intro j <;> grind
   | wlSetErr hw =>
@@ -98,6 +102,9 @@ theorem stepB {s a s'} (h : InvB s) (st : Step recheckFixed s a s') : InvB s' :=
     refine ⟨?_, ?_, ?_, ?_, ?_⟩ <;> intro j <;> simp only [upd, res] <;> by_cases hj : j = i <;> simp only [hj, if_true, if_false] <;> grind
   | wlWriteFail i hw hq =>
     refine ⟨?_, ?_, ?_, ?_, ?_⟩ <;> intro j <;> simp only [upd, res] <;> by_cases hj : j = i <;> simp only [hj, if_true, if_false] <;> grind
+  | wlBodyFail i hw hq =>
+    refine ⟨?_, ?_, ?_, ?_, ?_⟩ <;> intro j <;> simp only [upd, res] <;> by_cases hj : j = i <;> simp only [hj, if_true, if_false] <;> grind
+  | wlFail hw => exact ⟨h1, h2, h3, h4, h5⟩
   | wlSeeDone hw hd => exact ⟨h1, h2, h3, h4, h5⟩
   | wlSetErr hw => exact ⟨h1, h2, h3, h4, h5⟩
   | wlClose hw => exact ⟨h1, h2, h3, h4, h5⟩
